@@ -146,16 +146,17 @@ def _scal(d, n, tab, scaled):
     return fac * (np.ones(n) * s)
 
 
-def evaluate(cfg, want_detail=False):
-    """returns (outcome, nontrivial, violations)"""
+def evaluate(cfg, want_detail=False, extra=None, pid='C01', cls=None):
+    """returns (outcome, nontrivial, violations).  `extra(prob, spec, ref, U, V)` lets other
+    properties (C08, C24) add observations on the same converged model."""
     spec, why = models.spec_from_config(cfg)
-    cls = _sig_class(cfg)
+    cls = cls or _sig_class(cfg)
     if spec is None:
         return 'skipped:' + why, 0, []
     vio = []
 
     def V(what, msg):
-        vio.append({'sig': 'C01:%s:%s' % (what, cls), 'msg': '%s cfg={%s}: %s' % (what, cls, msg),
+        vio.append({'sig': '%s:%s:%s' % (pid, what, cls), 'msg': '%s cfg={%s}: %s' % (what, cls, msg),
                     'case': cfg})
 
     mode = cfg.get('mode', 'fwd')
@@ -180,6 +181,8 @@ def evaluate(cfg, want_detail=False):
         V('state_not_solution', 'all solvers reported convergence but the reference residual of '
           'the state is %.3e' % rn)
         return 'violation', 0, vio
+    if extra is not None:
+        extra(prob, spec, ref, U, V)
     tab = ref.tab
     ofs, wrts = [], []
     for r in spec['responses']:
